@@ -311,6 +311,21 @@ class _Fail(Exception):
     pass
 
 
+def call_check(check, case, ev):
+    """Run a plain check function.  Check functions guard the calls whose failure is the subject of
+    the property; an exception that still escapes from *inside netconan* (for instance from a
+    reference computation through the integer API) is a finding too, never a harness error."""
+    try:
+        return check(case, ev)
+    except (HarnessError, _Fail, KeyboardInterrupt):
+        raise
+    except Exception as e:  # noqa
+        key = exc_key(e)
+        if key.endswith("@outside-netconan"):
+            raise
+        return exc_finding(e, case, "unguarded/")
+
+
 def hyp_drive(strategy, check, n, seed_, ev, known_keys=(), shrink=True, max_keys=6, check_name=None):
     """Run `check(case, ev) -> Finding | None` on n generated cases.
 
@@ -345,7 +360,7 @@ def hyp_drive(strategy, check, n, seed_, ev, known_keys=(), shrink=True, max_key
         @given(strategy)
         def run(case):
             reset_globals()
-            f = check(case, ev)
+            f = call_check(check, case, ev)
             if f is None:
                 return
             if f.key in known_keys:
@@ -392,7 +407,7 @@ def enum_drive(cases, check, ev, known_keys=(), check_name=None, max_keys=5):
     enumerate small-to-large, so the first failing case of a key is a minimal one)."""
     collected = {}
     for case in cases:
-        f = check(case, ev)
+        f = call_check(check, case, ev)
         if f is None:
             continue
         if f.key in known_keys:
@@ -558,7 +573,7 @@ def greedy_minimize(finding, check, candidates, budget=60):
             spent += 1
             try:
                 reset_globals()
-                f = check(cand, Ev())
+                f = call_check(check, cand, Ev())
             except Exception:
                 continue
             if f is not None and f.key == best.key:
